@@ -87,7 +87,8 @@ def gen_params(name, rng, spec, nsamps_sel) -> dict:
     if name == "downsample":
         ffs = [f for f in divisors(nchans) if ((nchans // f) * nbits) % 8 == 0]
         ff = rng.choice(ffs)
-        tf = rng.choice([1, 2, 2, 3, 4, rng.randint(1, max(1, nsamps_sel))])
+        tf = rng.choice([1, 2, 2, 3, 4, 7, 49, rng.randint(1, max(1, nsamps_sel))])
+        tf = max(1, min(tf, nsamps_sel))
         return {"tfactor": tf, "ffactor": ff}
     if name == "subband":
         band = {k: spec.get(k, DISP_BAND[k]) for k in DISP_BAND}
